@@ -26,7 +26,7 @@ import ast, os, re, json, subprocess, time, textwrap
 Z, F, OF, B, OZ = "Z", "F", "OF", "B", "OZ"
 COQTY = {Z: "Z", F: "R", OF: "option R", B: "bool", OZ: "option Z", "LV": "list (list R)",
          # tensor kernels (row-wise semantics, see VecTr): vectors, matrices, 0/1 configurations, complex pairs
-         "V": "list R", "M": "list (list R)", "BV": "bits", "OBV": "option bits", "C": "(R * R)", "LBV": "list bits"}
+         "V": "list R", "M": "list (list R)", "BV": "bits", "OBV": "option bits", "C": "(R * R)", "LBV": "list bits", "MV": "bits", "MASK": "list bool"}
 
 
 class Untranslatable(Exception):
@@ -1062,6 +1062,84 @@ class CplxTr(VecTr):
         return VecTr.block(self, stmts, env, kind, target)
 
 
+class PairTr(VecTr):
+    """SWAP.apply / swap in a PAIRWISE reading: the batch is read as one row s1 together with its partner row s2 = roll(batch)[same
+    index] (an atom of the kernel table).  Writes through a region, x[:, A] = y[:, A], become bmerge A y x (y on the region, x
+    elsewhere).  Aliasing is fail-closed: a region load kept in a variable must be .clone()d, and a helper that writes into a
+    parameter must be called with a fresh value (<expr>.clone()), otherwise the caller's tensor would change and the value-level
+    reading would be wrong."""
+
+    def expr(self, node, env):
+        if isinstance(node, ast.Call) and isinstance(node.func, ast.Attribute) and node.func.attr == "clone" and not node.args and not node.keywords:
+            e, t = self.expr(node.func.value, env)
+            return e, ("MV" if t == "MVview" else t)
+        if isinstance(node, ast.Subscript) and self._region(node, env):
+            x, tx = self.expr(node.value, env)
+            if tx == "BV":
+                return x, "MVview"
+        if isinstance(node, ast.Call) and isinstance(node.func, ast.Name) and node.func.id in self.funcs and not node.keywords:
+            callee = self.funcs[node.func.id]
+            params = [a.arg for a in callee.args.args]
+            if callee.args.vararg or callee.args.kwarg or callee.args.defaults or len(params) != len(node.args) or self.depth > 4:
+                raise Untranslatable("call form of helper %s" % callee.name)
+            written = {t.value.id for st in ast.walk(callee) if isinstance(st, (ast.Assign, ast.AugAssign))
+                       for t in (st.targets if isinstance(st, ast.Assign) else [st.target])
+                       if isinstance(t, ast.Subscript) and isinstance(t.value, ast.Name)}
+            cenv = {"#n": env.get("#n", 0) + 50 * (self.depth + 1)}
+            for pn, a in zip(params, node.args):
+                fresh = isinstance(a, ast.Call) and isinstance(a.func, ast.Attribute) and a.func.attr == "clone"
+                if pn in written and not fresh:
+                    raise Untranslatable("helper %s writes into its argument %s, which is not a fresh copy" % (callee.name, pn))
+                cenv[pn] = self.expr(a, env)
+            self.depth += 1
+            try:
+                return self.block(list(callee.body), cenv, "function")
+            finally:
+                self.depth -= 1
+        return VecTr.expr(self, node, env)
+
+    def _region(self, sub, env):
+        sl = sub.slice
+        if isinstance(sl, ast.Tuple) and len(sl.elts) == 2 and isinstance(sl.elts[0], ast.Slice) \
+                and sl.elts[0].lower is None and sl.elts[0].upper is None and sl.elts[0].step is None:
+            try:
+                a, ta = self.expr(sl.elts[1], env)
+            except Untranslatable:
+                return None
+            if ta == "MASK":
+                return a
+        return None
+
+    def block(self, stmts, env, kind, target=None):
+        if stmts and isinstance(stmts[0], ast.Assign) and len(stmts[0].targets) == 1:
+            s, rest = stmts[0], stmts[1:]
+            tgt = s.targets[0]
+            K = lambda e: self.block(rest, e, kind, target)
+            if isinstance(tgt, ast.Subscript) and isinstance(tgt.value, ast.Name):
+                reg = self._region(tgt, env)
+                old = env.get(tgt.value.id)
+                if reg is None or not isinstance(old, tuple) or old[1] != "BV":
+                    raise Untranslatable("store %s" % ast.unparse(tgt))
+                y, ty = self.expr(s.value, env)
+                if ty not in ("MV", "MVview"):
+                    raise Untranslatable("store of a %s through a region" % ty)
+                if isinstance(s.value, ast.Subscript) and self._region(s.value, env) != reg:
+                    raise Untranslatable("store through one region from another")
+                return self.bind(env, tgt.value.id, "(bmerge %s %s %s)" % (reg, y, old[0]), "BV", K)
+            if isinstance(tgt, ast.Name):
+                e, t = self.expr(s.value, env)
+                if t == "MVview":
+                    raise Untranslatable("a region view kept in a variable without .clone()")
+                return self.bind(env, tgt.id, e, t, K)
+            if isinstance(tgt, ast.Tuple) and len(tgt.elts) == 2 and all(isinstance(x, ast.Name) for x in tgt.elts) and not isinstance(s.value, ast.Tuple):
+                e, t = self.expr(s.value, env)
+                if isinstance(t, tuple) and len(t) == 2:
+                    return self.bind(env, "pair", e, t, lambda e2: self.bind(
+                        e2, tgt.elts[0].id, "(fst %s)" % e2["pair"][0], t[0], lambda e3: self.bind(
+                            e3, tgt.elts[1].id, "(snd %s)" % e2["pair"][0], t[1], K)))
+        return VecTr.block(self, stmts, env, kind, target)
+
+
 # --------------------------------------------------------------------------- control skeleton of fit (C12)
 EVENT_KINDS = {"on_train_start": ("KTrainStart", 0), "on_epoch_start": ("KEpochStart", 1), "on_batch_start": ("KBatchStart", 2),
                "on_batch_end": ("KBatchEnd", 2), "on_epoch_end": ("KEpochEnd", 1), "on_train_end": ("KTrainEnd", 0)}
@@ -1327,7 +1405,9 @@ def translate_kernel(repo, spec):
         return "Definition gen_%s : list gstep :=\n  %s." % (spec["name"], extract_gibbs_skeleton(class_functions(tree, spec["func"]), fn)), "list gstep"
     if spec.get("kind") == "fit-skeleton":
         return "Definition gen_%s : skel :=\n  %s." % (spec["name"], extract_fit_skeleton(fn)), "skel"
-    if spec.get("cplx"):
+    if spec.get("pairwise_swap"):
+        tr = PairTr(spec, {n.name: n for n in tree.body if isinstance(n, ast.FunctionDef)})
+    elif spec.get("cplx"):
         tr = CplxTr(spec, {n.name: n for n in tree.body if isinstance(n, ast.FunctionDef)})
     else:
         tr = (VecTr if spec.get("vec") else Tr)(spec, class_functions(tree, spec["func"]))
